@@ -580,4 +580,51 @@ theorem corW_sq_le_one (v1 v2 w : List ℝ) (nw : Bool) (h1 : v1.length = w.leng
     (hB : ∃ b, varW v2 (normW' w nw) false false = .ok b ∧ 0 < b) :
     ∃ r, corW v1 v2 w nw = .ok r ∧ r ^ 2 ≤ 1 := corW_sq_le_one' v1 v2 w nw h1 h2 hw hA hB
 
+/-! ## whichAll, append -/
+
+/-- `whichAll` answers exactly the positions holding the element, in increasing order, and raises
+ElementNotFoundException when there is none -/
+theorem whichAll_spec (v : List ℝ) (x : ℝ) :
+    (∀ pos, whichAll v x = .ok pos → IsPositionsOf Scalar.eqb v x pos ∧ pos ≠ []) ∧
+    ((∀ y ∈ v, y ≠ x) → whichAll v x = .error .notfound) := by
+  have hpos : positionsOf x 0 v = (List.range v.length).filter (holdsAt Scalar.eqb v x) := by
+    rw [positionsOf_eq]; simp
+  constructor
+  · intro pos h
+    unfold whichAll at h
+    simp only at h
+    split at h
+    · rename_i hne
+      simp only [Except.ok.injEq] at h
+      subst h
+      exact ⟨hpos, fun hnil => hne (by rw [hnil]; rfl)⟩
+    · cases h
+  · intro hall
+    unfold whichAll
+    have : positionsOf x 0 v = [] := by
+      rw [hpos, List.filter_eq_nil_iff]
+      intro i hi
+      have hi' : i < v.length := List.mem_range.mp hi
+      simp only [holdsAt, List.getElem?_eq_getElem hi', ScalarReal.eqb_iff]
+      exact hall _ (List.getElem_mem hi')
+    simp [this]
+
+/-- `append` of a vector of vectors (repaired) is their concatenation -/
+theorem appendAll_spec {α : Type} (vs : List (List α)) : appendAll vs = vs.flatten := by
+  unfold appendAll
+  split
+  · rfl
+  · simp
+  · rw [foldl_append_flatten]; simp
+
+/-- witness: before the repair only the first vector was returned -/
+theorem appendAllOrig_drops {α : Type} (v w : List α) (rest : List (List α)) (hw : w ≠ []) :
+    appendAllOrig (v :: w :: rest) ≠ (v :: w :: rest).flatten := by
+  simp only [appendAllOrig, List.flatten_cons]
+  intro h
+  have := congrArg List.length h
+  simp only [List.length_append] at this
+  have : w.length = 0 := by omega
+  exact hw (List.length_eq_zero_iff.mp this)
+
 end Bpp.C07
